@@ -45,7 +45,7 @@ func ipsFromRules(resRules []*filtering.ResultRule) (ips []netip.Addr) {
 }
 
 // genDNSFilterMessage generates a filtered response to req for the filtering
-// result res.
+// result res.  s.serverLock is expected to be locked.
 func (s *Server) genDNSFilterMessage(
 	dctx *proxy.DNSContext,
 	res *filtering.Result,
@@ -291,6 +291,9 @@ func (s *Server) makeResponseNullIP(req *dns.Msg) (resp *dns.Msg) {
 	return resp
 }
 
+// genBlockedHost generates a response to request that points to newAddr, which
+// is either an IP address or a hostname to resolve.  s.serverLock is expected
+// to be locked.
 func (s *Server) genBlockedHost(request *dns.Msg, newAddr string, d *proxy.DNSContext) *dns.Msg {
 	if newAddr == "" {
 		log.Info("dnsforward: block host is not specified")
@@ -314,7 +317,10 @@ func (s *Server) genBlockedHost(request *dns.Msg, newAddr string, d *proxy.DNSCo
 		Req:   &replReq,
 	}
 
-	prx := s.proxy()
+	// Don't use s.proxy here, since it takes s.serverLock for reading again:
+	// with a writer arriving between the two acquisitions, both would wait for
+	// each other forever.
+	prx := s.dnsProxy
 	if prx == nil {
 		log.Debug("dnsforward: %s", srvClosedErr)
 
